@@ -1,22 +1,22 @@
 use self::world::*;
-fn walk(min: u32, max: u32, mode: TraversalMode, limit: u32, buffered: bool) -> Searcher { walk_a(min, max, mode, limit, buffered, false) }
-fn walk_a(min: u32, max: u32, mode: TraversalMode, limit: u32, buffered: bool, archives: bool) -> Searcher {
-    let mut s = Searcher { query: Query { limit }, found: 0, buffered, current_follow_symlinks: false, visited_dirs: Set { seen: [false; N] }, visited_entries: [false; N],
-                           dir_queue: Queue { items: [0; N], head: 0, tail: 0 }, error_count: 0, hgignore_filters: Filters, dockerignore_filters: Filters, log: [0; 8], n: 0 };
-    let r = s.visit_dir(&Path(0), min, max, 0, archives, false, None, false, false, mode, true);
+fn walk(min: u32, max: u32, mode: TraversalMode, limit: u32, buffered: bool) -> Searcher { walk_a(min, max, mode, limit, buffered, false, false) }
+fn walk_a(min: u32, max: u32, mode: TraversalMode, limit: u32, buffered: bool, archives: bool, follow: bool) -> Searcher {
+    let mut s = Searcher { query: Query { limit }, found: 0, buffered, current_follow_symlinks: follow, visited_dirs: Set { seen: [false; N] }, visited_inodes: InoSet { seen: [false; N] },
+                           dir_queue: Queue { items: [(0, false); N], head: 0, tail: 0 }, error_count: 0, hgignore_filters: Filters, dockerignore_filters: Filters, log: [0; 12], n: 0 };
+    let r = s.visit_dir(&Path(0, false), min, max, 0, archives, false, None, false, false, mode, true);
     assert!(r.is_ok(), "OBL C01.walk: no error");
     s
 }
+fn count(s: &Searcher, code: u8) -> usize { let mut c = 0; let mut i = 0; while i < s.n { if s.log[i] == code { c += 1; } i += 1; } c }
 fn in_window(node: usize, min: u32, max: u32) -> bool { (min == 0 || LEVEL[node] >= min) && (max == 0 || LEVEL[node] <= max) }
-// C01, the whole-traversal statement: for every depth window and both traversal modes an entry is reported exactly when its level (1 = directly inside
-// the root) lies in the window, exactly once, and nothing else is reported
+// C01, the whole-traversal statement: for every depth window an entry is reported exactly when its level (1 = directly inside the root) lies in the
+// window, exactly once, and nothing else is reported (symlinks are listed like any entry and - without the `symlinks` option - not followed)
 fn window_check(min: u32, max: u32, mode: TraversalMode) {
     let s = walk(min, max, mode, 0, false);
     let mut node = 1;
     while node < N {
-        let mut count = 0; let mut i = 0;
-        while i < s.n { if s.log[i] as usize == node { count += 1; } i += 1; }
-        assert!(count == if in_window(node, min, max) { 1 } else { 0 }, "OBL C01.walk.window: an entry is reported exactly once iff its level lies in [mindepth, maxdepth]");
+        let expect = if node < INSIDE && in_window(node, min, max) { 1 } else { 0 };
+        assert!(count(&s, node as u8) == expect, "OBL C01.walk.window: an entry is reported exactly once iff it lies under the root and its level lies in [mindepth, maxdepth]");
         node += 1;
     }
     assert!(s.error_count == 0, "OBL C01.walk.window: no spurious error");
@@ -91,7 +91,7 @@ fn c06_walk_limit_archive() {
     kani::assume(limit <= 8);
     kani::cover!(limit == 3);
     kani::cover!(limit == 0);
-    let s = walk_a(0, 0, TraversalMode::Bfs, limit, false, true);
+    let s = walk_a(0, 0, TraversalMode::Bfs, limit, false, true, false);
     let full: [u8; 7] = [1, 2, 12, 22, 3, 4, 5];
     let expect = if limit == 0 || limit > 7 { 7 } else { limit as usize };
     assert!(s.n == expect, "OBL C06.walk.limit.archive: exactly min(L, M) rows, archive members included");
